@@ -36,3 +36,136 @@ Proof.
       intros g [<-|[]] (_ & A & _). vm_compute in A. discriminate.
     + vm_compute. intros [H|[H|[]]]; discriminate.
 Qed.
+
+(* ---------------- runs and sent messages ---------------- *)
+Lemma mkf_fields prio pgn src dst b : id_args_ok prio pgn src dst -> (pdu1 pgn = true -> pgn mod 256 = 0) ->
+  let f := mkf (to_can_id prio pgn src dst) b in
+  fpri f = prio /\ fpgn f = pgn /\ fsrc f = src /\ fdst f = (if pdu1 pgn then dst else 255).
+Proof.
+  intros Ha Hp. cbv zeta. unfold fpri, fpgn, fsrc, fdst, mkf. cbn [r_id]. rewrite (id_decode prio pgn src dst Ha Hp). auto.
+Qed.
+Lemma chunk_mkf id b k : length b = 8%nat -> chunk k (mkf id b) = skipn k b.
+Proof.
+  intros L. unfold chunk, mkf. cbn [r_len r_buf]. apply firstn_all2. rewrite skipn_length. lia.
+Qed.
+Lemma skipn_1_tl {A} (l:list A) : skipn 1 l = tl l.
+Proof. destruct l; reflexivity. Qed.
+
+(* the continuation data of a run whose frame number q+k is the frame number q+k of G *)
+Lemma cdata_frames fs id (F:list (list Z)) : Forall (fun f => length f = 8%nat) F -> forall rest q,
+  (forall k, (k < length rest)%nat -> nth_error fs (nth k rest 0%nat) = nth_error (map (mkf id) F) (q + k)%nat) ->
+  (q + length rest <= length F)%nat ->
+  cdata fs rest = concat (map (@tl Z) (firstn (length rest) (skipn q F))).
+Proof.
+  intros H8. induction rest as [|i rest IH]; intros q Hk Hl; [reflexivity|]. cbn [cdata length] in *.
+  pose proof (Hk 0%nat ltac:(lia)) as H0. cbn [nth] in H0. rewrite Nat.add_0_r in H0. rewrite H0.
+  destruct (nth_error F q) as [b|] eqn:Eb; [|apply nth_error_None in Eb; lia].
+  rewrite (map_nth_error (mkf id) _ _ Eb).
+  assert (Hs : skipn q F = b :: skipn (S q) F).
+  { clear -Eb. revert q Eb. induction F as [|x F IH]; intros [|q] E; cbn in *; try discriminate; [injection E as ->; reflexivity|]. apply IH. exact E. }
+  rewrite Hs. cbn [firstn map concat]. rewrite chunk_mkf, skipn_1_tl by (rewrite Forall_forall in H8; apply H8; eapply nth_error_In; eauto).
+  f_equal. apply IH; [|lia]. intros k Hk'. specialize (Hk (S k) ltac:(lia)). cbn [nth] in Hk. rewrite Hk. f_equal. lia.
+Qed.
+
+Lemma concat_map_firstn_prefix {A} (T:list (list A)) n : exists Y, concat (map (@tl A) T) = concat (map (@tl A) (firstn n T)) ++ Y.
+Proof.
+  exists (concat (map (@tl A) (skipn n T))). rewrite <- concat_app, <- map_app, firstn_skipn. reflexivity.
+Qed.
+
+Theorem runs_are_sent_partial : runs_are_sent_partial_stmt.
+Proof.
+  intros prio pgn src dst sid payload fs m idx Ha Hp Hsid Hlen Hbytes (i0 & rest & f0 & -> & B & C & D & E & F & G & H & I & J) Hfr.
+  cbv zeta in J. destruct J as (J1 & J2 & _).
+  pose proof (fp_frames_ok sid payload Hsid Hlen Hbytes) as FO. cbv zeta in FO. destruct FO as [_ [Fl [F8 [_ [Fn [pad [Fp _]]]]]]].
+  set (FR := fp_frames (Z.shiftl sid 5) payload) in *. set (id := to_can_id prio pgn src dst) in *.
+  assert (Hne : exists b T, FR = b :: T) by (unfold FR, fp_frames; eauto). destruct Hne as (b0 & T & EF).
+  rewrite EF in *. cbn [hd tl] in *.
+  assert (L0 : length b0 = 8%nat) by (inversion F8; auto).
+  assert (F8T : Forall (fun f => length f = 8%nat) T) by (inversion F8; auto).
+  (* the first frame *)
+  pose proof (Hfr 0%nat ltac:(cbn; lia)) as H0. cbn [nth map nth_error] in H0. rewrite B in H0. injection H0 as ->.
+  destruct (mkf_fields prio pgn src dst b0 Ha Hp) as (P1 & P2 & P3 & P4). fold id in P1, P2, P3, P4.
+  split; [|repeat split; congruence].
+  (* the data *)
+  assert (Hrest : forall k, (k < length rest)%nat -> nth_error fs (nth k rest 0%nat) = nth_error (map (mkf id) T) (0 + k)%nat).
+  { intros k Hk. specialize (Hfr (S k) ltac:(cbn [length]; lia)). cbn [nth map nth_error] in Hfr. exact Hfr. }
+  assert (HlT : (0 + length rest <= length T)%nat).
+  { destruct rest as [|x rest'] eqn:Er; [cbn; lia|]. rewrite <- Er in *. destruct (Nat.le_gt_cases (length rest) (length T)); [lia|]. exfalso.
+    specialize (Hrest (length T) ltac:(lia)).
+    assert (In (nth (length T) rest 0%nat) rest) by (apply nth_In; lia).
+    pose proof (conts_bound _ _ _ _ _ _ _ I _ H1) as Hb. apply nth_error_Some in Hb. rewrite Hrest in Hb. apply Hb. apply nth_error_None. rewrite map_length. lia. }
+  rewrite (cdata_frames fs id T F8T rest 0 Hrest HlT) in *. cbn [skipn] in *.
+  rewrite chunk_mkf in * by exact L0.
+  unfold fbyte, mkf in J1, J2. cbn [r_buf] in J1, J2. rewrite Fn in J1, J2. rewrite J2.
+  destruct (concat_map_firstn_prefix T (length rest)) as (Y & EY).
+  set (X := skipn 2 b0 ++ concat (map (@tl Z) (firstn (length rest) T))) in *.
+  assert (EX : payload ++ pad = X ++ Y).
+  { unfold X. rewrite <- app_assoc, <- EY. destruct b0 as [|x0 [|x1 b0']]; cbn in L0; try lia. cbn [skipn]. cbn [app] in Fp. cbn [hd] in Fp. inversion Fp. auto. }
+  rewrite firstn_length in J1. rewrite firstn_firstn. unfold MAXLEN in *.
+  rewrite Nat.min_l by lia. rewrite Nat2Z.id.
+  replace (firstn (length payload) X) with (firstn (length payload) (X ++ Y)) by (apply firstn_app_short; lia).
+  rewrite <- EX. rewrite firstn_app, Nat.sub_diag, firstn_all. cbn. apply app_nil_r.
+Qed.
+
+Lemma conts_nth fs pgn src dst b0 : forall rest q, conts fs pgn src dst b0 q rest ->
+  forall k, (k < length rest)%nat -> exists f, nth_error fs (nth k rest 0%nat) = Some f /\ fbyte f 0 = b0 + q + Z.of_nat k /\ Z.land (fbyte f 0) 31 <> 0.
+Proof.
+  induction rest as [|i rest IH]; intros q H k Hk; cbn [length] in Hk; [lia|]. cbn [conts] in H. destruct H as [(f & A & _ & _ & _ & B & C) H].
+  destruct k as [|k]; cbn [nth].
+  - exists f. repeat split; auto. lia.
+  - destruct (IH (q + 1) H k ltac:(lia)) as (f' & A' & B' & C'). exists f'. repeat split; auto. lia.
+Qed.
+Lemma mod8_close x y : x mod 8 = y mod 8 -> y <= x < y + 8 -> x = y.
+Proof. intros H R. pose proof (Z.div_mod x 8 ltac:(lia)). pose proof (Z.div_mod y 8 ltac:(lia)). lia. Qed.
+Lemma hd_nth0 (l:list Z) : nth 0 l 0 = hd 0 l.
+Proof. destruct l; reflexivity. Qed.
+
+Lemma nth_error_map_inv {A B} (f:A -> B) l k y : nth_error (map f l) k = Some y -> exists x, nth_error l k = Some x /\ y = f x.
+Proof. revert k. induction l as [|a l IH]; intros [|k] H; cbn in *; try discriminate. - injection H as <-. eauto. - apply IH. exact H. Qed.
+
+Theorem runs_are_sent : runs_are_sent_stmt.
+Proof.
+  intros prio pgn src dst s0 payloads fs m idx js ns Ha Hp Hs0 Hpay id FJ Ljs Lns Hfr Hord Hal j.
+  pose proof FJ as (i0 & rest & f0 & Eidx & B & C & D & E & F & G & H & I & J).
+  (* what every frame of the run says in its first byte *)
+  assert (Hbyte : forall k, (k < length idx)%nat -> exists g, nth_error fs (nth k idx 0%nat) = Some g /\ fbyte g 0 = fbyte f0 0 + Z.of_nat k /\
+                    (k <> 0%nat -> Z.land (fbyte g 0) 31 <> 0)).
+  { intros k Hk. subst idx. destruct k as [|k]; cbn [nth].
+    - exists f0. repeat split; auto; try lia; try congruence.
+    - cbn [length] in Hk. destruct (conts_nth _ _ _ _ _ _ _ I k ltac:(lia)) as (g & A1 & A2 & A3). exists g. repeat split; auto; try lia. }
+  (* ... and what the sender put there *)
+  assert (Hsent : forall k, (k < length idx)%nat -> exists g, nth_error fs (nth k idx 0%nat) = Some g /\
+                    fbyte g 0 = 32 * ((s0 + Z.of_nat (nth k js 0%nat)) mod 8) + Z.of_nat (nth k ns 0%nat) /\ (nth k ns 0 < 32)%nat).
+  { intros k Hk. destruct (Hbyte k Hk) as (g & Hg & _). exists g. split; auto. destruct (Hfr k Hk) as [Hj Hn]. rewrite Hg in Hn. symmetry in Hn.
+    unfold msg_frames in Hn. apply nth_error_map_inv in Hn. destruct Hn as (b & Hb & ->).
+    rewrite Forall_forall in Hpay. destruct (Hpay (nth (nth k js 0%nat) payloads []) (nth_In _ _ Hj)) as [Pl Pb].
+    pose proof (fp_frames_ok ((s0 + Z.of_nat (nth k js 0%nat)) mod 8) _ ltac:(apply Z.mod_pos_bound; lia) Pl Pb) as FO. cbv zeta in FO.
+    destruct FO as [_ [_ [_ [Fc _]]]]. destruct (Fc _ _ Hb) as [Fc1 Fc2]. unfold frame_counter, frame_seqid in *.
+    unfold fbyte, mkf. cbn [r_buf]. rewrite hd_nth0. pose proof (Z.div_mod (hd 0 b) 32 ltac:(lia)). pose proof (Z.mod_pos_bound (hd 0 b) 32 ltac:(lia)). split; lia. }
+  (* counters and sequence ids agree with the first frame's *)
+  destruct (Hsent 0%nat ltac:(subst idx; cbn; lia)) as (g0 & Hg0 & S0 & N0). subst idx. cbn [nth] in Hg0. rewrite B in Hg0. injection Hg0 as <-.
+  assert (Hb0 : fbyte f0 0 mod 32 = 0) by (change 31 with (Z.ones 5) in H; rewrite Z.land_ones in H by lia; exact H).
+  assert (Hk32 : (length rest <= 31)%nat).
+  { destruct (Nat.le_gt_cases (length rest) 31); auto. exfalso. destruct (Hbyte 32%nat ltac:(cbn [length]; lia)) as (g & _ & A2 & A3).
+    apply A3; [lia|]. change 31 with (Z.ones 5). rewrite Z.land_ones by lia. rewrite A2. change (2 ^ 5) with 32.
+    rewrite Z.add_mod, Hb0 by lia. reflexivity. }
+  assert (Hn0 : nth 0 ns 0%nat = 0%nat) by (rewrite S0 in Hb0; rewrite Z.add_mod, Z.mul_comm, Z.mod_mul in Hb0 by lia; rewrite Z.add_0_l, Z.mod_mod, Z.mod_small in Hb0 by lia; lia).
+  assert (Hmono : forall a b, (a <= b)%nat -> (b < length (i0 :: rest))%nat -> (nth a js 0 <= nth b js 0)%nat).
+  { intros a b Hab. induction Hab as [|b Hab IH]; intros Hb; [lia|]. specialize (IH ltac:(lia)). destruct (Hord b Hb) as [X|[X _]]; lia. }
+  assert (Hall : forall k, (k < length (i0 :: rest))%nat -> nth k js 0%nat = j /\ nth k ns 0%nat = k).
+  { intros k Hk. destruct (Hbyte k Hk) as (g & Hg & A2 & _). destruct (Hsent k Hk) as (g' & Hg' & A3 & A4). rewrite Hg in Hg'. injection Hg' as <-.
+    cbn [length] in Hk. rewrite A2, S0, Hn0 in A3.
+    pose proof (Z.mod_pos_bound (s0 + Z.of_nat (nth 0 js 0%nat)) 8 ltac:(lia)). pose proof (Z.mod_pos_bound (s0 + Z.of_nat (nth k js 0%nat)) 8 ltac:(lia)).
+    assert (Es : (s0 + Z.of_nat (nth k js 0%nat)) mod 8 = (s0 + Z.of_nat (nth 0 js 0%nat)) mod 8) by lia.
+    assert (En : nth k ns 0%nat = k) by lia. split; auto.
+    pose proof (Hmono 0%nat k ltac:(lia) ltac:(cbn [length]; lia)). pose proof (Hmono k (length rest) ltac:(lia) ltac:(cbn [length]; lia)).
+    cbn [length] in Hal. replace (S (length rest) - 1)%nat with (length rest) in Hal by lia.
+    apply mod8_close in Es; [|unfold j in *; lia]. unfold j. lia. }
+  split; [exact Hall|].
+  (* now the run consists of the frames 0..n of sent message j *)
+  assert (Hj : (j < length payloads)%nat) by (destruct (Hfr 0%nat ltac:(cbn; lia)) as [X _]; exact X).
+  rewrite Forall_forall in Hpay. destruct (Hpay (nth j payloads []) (nth_In _ _ Hj)) as [Pl Pb].
+  apply (runs_are_sent_partial prio pgn src dst ((s0 + Z.of_nat j) mod 8) (nth j payloads []) fs m (i0 :: rest) Ha Hp ltac:(apply Z.mod_pos_bound; lia) Pl Pb FJ).
+  intros k Hk. destruct (Hall k Hk) as [E1 E2]. destruct (Hfr k Hk) as [_ X]. rewrite X, E1, E2. reflexivity.
+Qed.
+
